@@ -295,7 +295,7 @@ pub fn run(tier: &str) -> Result<Report, String> {
     for n in 1..=3usize {
         let rich = n <= 2 || tier != "quick";
         let menus: Vec<Vec<(Vec<usize>, Option<Expr>)>> = (0..n).map(|t| menu(t, n, rich && (n <= 2 || tier != "quick"))).collect();
-        let menus: Vec<Vec<(Vec<usize>, Option<Expr>)>> = if n == 3 { menus.into_iter().map(|m| m.into_iter().step_by(if tier == "quick" { 3 } else { 1 }).collect()).collect() } else { menus };
+        let menus: Vec<Vec<(Vec<usize>, Option<Expr>)>> = if n == 3 { menus.into_iter().map(|m| m.into_iter().step_by(if tier == "quick" { 2 } else { 1 }).collect()).collect() } else { menus };
         let sizes: Vec<usize> = menus.iter().map(|m| m.len()).collect();
         let total: usize = sizes.iter().product();
         for mut code in 0..total {
